@@ -1,10 +1,12 @@
 import KinModel.Drv.Util
 import KinModel.RequestFlow
+import KinModel.RequestHistory
+import KinModel.RequestOne
 import KinModel.Style
 import KinModel.Body
 open Lean
 namespace KinModel.Drv.C07
-open KinModel.Drv KinModel.RequestFlow
+open KinModel.Drv KinModel.RequestFlow KinModel.RequestHistory
 open KinModel.Request (In Param Opts Part overridden skipQuery)
 
 def parseIn (s : String) : In :=
@@ -62,6 +64,18 @@ def insertQ (n : Style.Str) : List (Style.Str × List Style.Str) → List (Style
 def wholeQuery (ps : List Json) : List (Style.Str × List Style.Str) :=
   ps.foldl (fun q j => if getStr j "in" == "query" && getBool j "sent" then insertQ (getStr j "name").toList q else q) []
 
+/-- the ONE request of the case, as the Go runner builds it (`c07Request`): path values `5`, the query, a header / a
+cookie `5` per parameter sent; with `noise` a header and a cookie no parameter names and, behind every cookie sent, a
+second cookie of the same name with the value `99` (above both maxima) -/
+def oneRequest (noise : Bool) (ps : List Json) : RequestOne.HttpReq :=
+  let sentIn (loc : String) := ps.filter (fun j => getStr j "in" == loc && getBool j "sent")
+  let cookies := (sentIn "cookie").map (fun j => ((getStr j "name").toList, ['5']))
+  { pathParams := (ps.filter (fun j => getStr j "in" == "path")).map (fun j => ((getStr j "name").toList, ['5'])),
+    query := wholeQuery ps,
+    headers := (sentIn "header").map (fun j => (RequestOne.canonHeader (getStr j "name").toList, [['5']])) ++
+      (if noise then [("X-Other".toList, [['1']])] else []),
+    cookies := cookies ++ (if noise then ("zz".toList, ['1']) :: cookies.map (fun kv => (kv.1, ['9', '9'])) else []) }
+
 def bodyByC06 (bf : BodyFacts) : Bool :=
   let need := if bf.valid then "a" else "b"
   let schema := Body.RS.leaf (some .object) false false false 0 none [] [need.toList] none none
@@ -71,6 +85,13 @@ def bodyByC06 (bf : BodyFacts) : Bool :=
     if bf.sent then { text := "{\"a\":1}".toList, json := some (.obj [("a".toList, .int 1)]), form := none, parts := none }
     else { text := [], json := none, form := none, parts := none }
   (Body.validateRequestBodyD Body.registry rb ct.toList b false true).isOk
+
+/-- the `Options` value of one call of the case: nil pointer, or the struct with its exclusions, mode and callback -/
+def parseCall (j : Json) : Call :=
+  if getBool j "optionsNil" then ⟨none⟩ else
+  let accepted := strs (getArr j "accepted")
+  ⟨some ⟨{ excludeBody := getBool j "excludeBody", excludeQuery := getBool j "excludeQuery", multiError := getBool j "multi" },
+         if getBool j "authNil" then none else some (fun s sc => accepted.contains (callKey s sc))⟩⟩
 
 /-- request: {opParams (null | [..]), pathParams, opSecurity (null | [[..]]), docSecurity, declared:[..],
     accepted:["scheme(scope,scope)", ..], authNil, body (null | {required, sent, ctOK, valid}),
@@ -85,22 +106,34 @@ def handle (j : Json) : Json :=
     opSecurity := if isNull j "opSecurity" then none else some (parseReqs (getArr j "opSecurity")),
     docSecurity := parseReqs (getArr j "docSecurity"),
     hasBody := hasBody, bodyOK := bf.ok }
-  let o : Opts := { excludeBody := getBool j "excludeBody", excludeQuery := getBool j "excludeQuery",
-                    multiError := getBool j "multi" }
   let declared := strs (getArr j "declared")
-  let accepted := strs (getArr j "accepted")
-  let env : Env := {
-    declared := fun s => declared.contains s,
-    auth := if getBool j "authNil" then none else some (fun s sc => accepted.contains (callKey s sc)) }
-  let res := validateRequest o op env
-  let log := authLog o op env
+  let call0 := parseCall j
+  -- the history: the case's own call, then one call per entry of "history" (the entry overrides the option fields)
+  let steps : List Step := ⟨false, call0⟩ ::
+    (getArr j "history").map (fun st => ⟨getStr st "reuse" == "sibling", parseCall (j.mergeObj st)⟩)
+  let calls := steps.map (·.call)
+  let dfun : String → Bool := fun s => declared.contains s
+  let outs := validateSteps op dfun steps
+  let o : Opts := call0.opts
+  let env : Env := call0.env dfun
+  let res := (outs.head?.getD (.stuck, [])).1
+  let log := (outs.head?.getD (.stuck, [])).2
+  let histModel := (outs.drop 1).map (fun r => jobj [("ok", Json.bool r.1.isOk), ("shape", Json.str (shapeStr r.1)),
+                    ("parts", jstrs (r.1.parts.map partStr)),
+                    ("authLog", jstrs (r.2.map (fun c => callKey c.scheme c.scopes)))])
+  let histSpec := (steps.drop 1).map (fun s => jobj [("accept", Json.bool (acceptB s.call.opts (s.op op) (s.call.env dfun))),
+                   ("failing", jstrs ((failingSpec s.call.opts (s.op op) (s.call.env dfun)).map partStr))])
+  let histDiffer := (outs.drop 1).any (fun r => r.1.parts != res.parts || r.1.isOk != res.isOk)
   let allParams := op.pathParams ++ opList op
   let allFacts := ((getArr j "pathParams") ++ (getArr j "opParams")).map parseFacts
   let uses := (securityList op).flatten
   let allJ := (getArr j "pathParams") ++ (getArr j "opParams")
   let q := wholeQuery allJ
+  let one := oneRequest (getBool j "noise") allJ
   let composeAgree :=
     allJ.all (fun pj => (Style.validateParameter (styleParam pj) (styleReq q pj) == .accept) == (parseFacts pj).ok) &&
+    -- the same through the views projected from the one request of the case
+    allJ.all (fun pj => (Style.validateParameter (styleParam pj) (RequestOne.view one (styleParam pj)) == .accept) == (parseFacts pj).ok) &&
     (!hasBody || bodyByC06 bf == bf.ok)
   let build := getD j "build" Json.null
   let branches :=
@@ -130,15 +163,28 @@ def handle (j : Json) : Json :=
     (if getStr build "doc" == "loaded" then ["build.doc.loaded"] else []) ++
     (if getBool j "authReadsBody" && !log.isEmpty then ["auth.readsbody"] else []) ++
     (if getBool j "optionsNil" then ["opt.nil"] else []) ++
+    (if getBool j "noise" then ["req.noise"] else []) ++
+    (if getBool j "noise" && one.cookies.length > 2 then ["req.noise.shadowed-cookie"] else []) ++
+    (if !(getArr j "otherOpts").isEmpty then ["opt.other"] else []) ++
+    (if calls.length > 1 then ["hist"] else []) ++
+    (if calls.length > 2 then ["hist.long"] else []) ++
+    (if histDiffer then ["hist.differ"] else []) ++
+    (if (calls.drop 1).any (fun c => c.options.isNone) then ["hist.nilopts"] else []) ++
+    (if (getArr j "history").any (fun st => getStr st "reuse" == "input") then ["hist.reuse.input"] else []) ++
+    (if (getArr j "history").any (fun st => getStr st "reuse" == "request") then ["hist.reuse.request"] else []) ++
+    (if (getArr j "history").any (fun st => getStr st "reuse" == "doc") then ["hist.reuse.doc"] else []) ++
+    (if steps.any (·.onSibling) then ["hist.sibling"] else []) ++
+    (if steps.any (·.onSibling) && op.pathParams.any (overridden (opList op)) then ["hist.sibling.override"] else []) ++
+    (if (getArr j "history").any (fun st => getStr st "optsHow" == "mutate") then ["hist.opts.mutate"] else []) ++
     (if getStr j "undeclaredHow" != "" then ["sec.undeclared." ++ getStr j "undeclaredHow"] else []) ++
     (if ((getArr j "pathParams") ++ (getArr j "opParams")).any (fun p => getBool p "ref") then ["param.ref"] else [])
   jobj [
     ("model", jobj [("ok", Json.bool res.isOk), ("shape", Json.str (shapeStr res)),
                     ("parts", jstrs (res.parts.map partStr)),
                     ("authLog", jstrs (log.map (fun c => callKey c.scheme c.scopes))),
-                    ("composeAgree", Json.bool composeAgree)]),
+                    ("composeAgree", Json.bool composeAgree), ("hist", Json.arr histModel.toArray)]),
     ("spec", jobj [("accept", Json.bool (acceptB o op env)),
-                   ("failing", jstrs ((failingSpec o op env).map partStr))]),
+                   ("failing", jstrs ((failingSpec o op env).map partStr)), ("hist", Json.arr histSpec.toArray)]),
     ("excl", Json.arr #[]),
     ("branches", jstrs branches)]
 
